@@ -151,11 +151,6 @@ func targeted(m alterMsg, ctx *alterCtx, o *origInfo) []treeCase {
 			v.signersNode.children = removeNode(v.signersNode.children, v.signers[si].n)
 			return true
 		})
-		add(fmt.Sprintf("signature-negate-s/%d", si), func(v *signedView) bool {
-			// not produced: (r, n-s) is a valid ECDSA signature by the mathematics of
-			// the scheme; this is not a property of the PKCS#7 layer
-			return false
-		})
 		for sj := range o.view.signers {
 			if sj == si {
 				continue
